@@ -26,6 +26,9 @@ Qed.
 
 (* ------------------------------------------------------------------ *)
 (* The bookkeeping invariant.  [all] = tags queued so far, in order.    *)
+Lemma event_eq_take (e : event) : e = Take \/ e <> Take.
+Proof. destruct e; [right; discriminate | right; discriminate | right; discriminate | now left]. Qed.
+
 Ltac split4 := split; [|split; [|split]].
 
 (* one Pass = the reconnect (when its timer fired on a cut off reconnectable connector), then the rest *)
@@ -158,7 +161,7 @@ Qed.
 Lemma inv_step all s e :
   Inv all s -> Inv (all ++ match e with Enq t => [t] | _ => [] end) (step mof qof pq pay s e).
 Proof.
-  intros HI. destruct e as [t|rc o|]; [now apply inv_enq| |rewrite app_nil_r; exact HI].
+  intros HI. destruct e as [t|rc o| |]; [now apply inv_enq| |rewrite app_nil_r; exact HI|rewrite app_nil_r; exact HI].
   rewrite step_pass_split, app_nil_r.
   assert (HI' : Inv all (if rc && cut s && reconn s then reconnect s else s))
     by (destruct (rc && cut s && reconn s); [now apply inv_reconnect | exact HI]).
@@ -175,7 +178,7 @@ Proof.
   induction evs as [|e evs IH]; intros all s HI; cbn [run fold_left enqs].
   - now rewrite app_nil_r.
   - apply (inv_step all s e) in HI. apply IH in HI. fold (run mof qof pq pay (step mof qof pq pay s e) evs).
-    destruct e; cbn [enqs]; [now rewrite <- app_assoc in HI | now rewrite app_nil_r in HI | now rewrite app_nil_r in HI].
+    destruct e; cbn [enqs]; [now rewrite <- app_assoc in HI | now rewrite app_nil_r in HI | now rewrite app_nil_r in HI | now rewrite app_nil_r in HI].
 Qed.
 
 Lemma map_some_inj (a b : list N) : map Some a = map Some b -> a = b.
@@ -245,7 +248,7 @@ Qed.
 
 Lemma invS_step s e : InvS s -> InvS (step mof qof pq pay s e).
 Proof.
-  intros H. destruct e as [t|rc o|]; [exact H| |exact H].
+  intros H. destruct e as [t|rc o| |]; [exact H| |exact H|exact H].
   rewrite step_pass_split.
   assert (H' : InvS (if rc && cut s && reconn s then reconnect s else s)).
   { destruct (rc && cut s && reconn s); [|exact H]. destruct H as [H1 H2]. split; [exact H1|].
@@ -325,7 +328,7 @@ Qed.
 
 Lemma invH_step all s e : Inv all s -> InvH s -> InvH (step mof qof pq pay s e).
 Proof.
-  intros HI H. destruct e as [t|rc o|]; [exact H| |exact H].
+  intros HI H. destruct e as [t|rc o| |]; [exact H| |exact H|exact H].
   rewrite step_pass_split.
   assert (HI' : Inv all (if rc && cut s && reconn s then reconnect s else s))
     by (destruct (rc && cut s && reconn s); [now apply inv_reconnect | exact HI]).
@@ -441,7 +444,7 @@ Qed.
 
 Lemma invQ_step s e : InvQ s -> InvQ (step mof qof pq pay s e).
 Proof.
-  intros H. destruct e as [t|rc o|]; [now apply invQ_enq| |exact H].
+  intros H. destruct e as [t|rc o| |]; [now apply invQ_enq| |exact H|exact H].
   rewrite step_pass_split.
   assert (H' : InvQ (if rc && cut s && reconn s then reconnect s else s))
     by (destruct (rc && cut s && reconn s); [now apply invQ_reconnect | exact H]).
@@ -490,7 +493,7 @@ Proof. reflexivity. Qed.
 
 Lemma qlog_grows s e : exists more, qlog (step mof qof pq pay s e) = qlog s ++ more.
 Proof.
-  destruct e as [t|rc o|]; [| |exists []; now rewrite app_nil_r].
+  destruct e as [t|rc o| |]; [| |exists []; now rewrite app_nil_r|exists []; now rewrite app_nil_r].
   - eexists. apply enq_records.
   - exists []. rewrite app_nil_r, step_pass_split.
     assert (R : qlog (if rc && cut s && reconn s then reconnect s else s) = qlog s)
@@ -517,7 +520,7 @@ Definition InvM (s : cstate) : Prop :=
 
 Lemma invM_step all s e : Inv all s -> InvM s -> InvM (step mof qof pq pay s e).
 Proof.
-  intros HI HM. destruct e as [t|rc o|]; [exact HM| |exact HM].
+  intros HI HM. destruct e as [t|rc o| |]; [exact HM| |exact HM|exact HM].
   rewrite step_pass_split.
   assert (HI' : Inv all (if rc && cut s && reconn s then reconnect s else s))
     by (destruct (rc && cut s && reconn s); [now apply inv_reconnect | exact HI]).
@@ -585,7 +588,7 @@ Definition InvP (s : cstate) : Prop :=
 
 Lemma invP_step s e : InvP s -> InvP (step mof qof pq pay s e).
 Proof.
-  intros H. destruct e as [t|rc o|]; [exact H| |exact H].
+  intros H. destruct e as [t|rc o| |]; [exact H| |exact H|exact H].
   rewrite step_pass_split.
   assert (H' : InvP (if rc && cut s && reconn s then reconnect s else s)).
   { destruct (rc && cut s && reconn s); [|exact H]. destruct H as (A & B & C).
@@ -634,5 +637,89 @@ Proof.
   destruct (G evs (init_m rcn sec rd m)) as (A & B & _); [|split; assumption].
   unfold InvP, init_m. cbn. split; [constructor | split; [discriminate | exact I]].
 Qed.
+
+(* ------------------------------------------------------------------ *)
+(* Client.respond(): entries are handed out oldest first.                 *)
+Fixpoint somes {A} (l : list (option A)) : list A :=
+  match l with [] => [] | Some a :: r => a :: somes r | None :: r => somes r end.
+
+Lemma somes_app {A} (l l' : list (option A)) : somes (l ++ l') = somes l ++ somes l'.
+Proof. induction l as [|[a|] l IH]; cbn [List.app somes]; [reflexivity | now rewrite IH | exact IH]. Qed.
+
+Definition InvT (s : cstate) : Prop :=
+  (ntaken s <= length (responses s))%nat /\ somes (takes s) = firstn (ntaken s) (responses s).
+
+Lemma responses_grow s e : exists more, responses (step mof qof pq pay s e) = responses s ++ more.
+Proof.
+  destruct e as [t|rc o| |]; try (exists []; now rewrite app_nil_r).
+  rewrite step_pass_split.
+  assert (R : responses (if rc && cut s && reconn s then reconnect s else s) = responses s)
+    by (destruct (rc && cut s && reconn s); reflexivity).
+  rewrite <- R. generalize (if rc && cut s && reconn s then reconnect s else s). clear R s. intros s.
+  cbn [step andb].
+  assert (P : responses (pump mof qof pq pay s) = responses s).
+  { unfold pump. destruct (waited s); [reflexivity|]. destruct (queue s); reflexivity. }
+  destruct o as [r|]; [|exists []; now rewrite app_nil_r].
+  destruct (waited (pump mof qof pq pay s) && sent (pump mof qof pq pay s) && readable (pump mof qof pq pay s) r);
+    [|exists []; now rewrite app_nil_r].
+  rewrite <- P. destruct (complete_cases (pump mof qof pq pay s) r) as [(err & c & E)|(l & _ & _ & _ & _ & _ & E & _)].
+  - rewrite E. eexists. reflexivity.
+  - rewrite E. exists []. now rewrite app_nil_r.
+Qed.
+
+Lemma fixed_fields s e : e <> Take ->
+  ntaken (step mof qof pq pay s e) = ntaken s /\ takes (step mof qof pq pay s e) = takes s.
+Proof.
+  intros Ht. destruct e as [t|rc o| |]; [split; reflexivity| |split; reflexivity|congruence].
+  rewrite step_pass_split.
+  assert (R : ntaken (if rc && cut s && reconn s then reconnect s else s) = ntaken s
+              /\ takes (if rc && cut s && reconn s then reconnect s else s) = takes s)
+    by (destruct (rc && cut s && reconn s); split; reflexivity).
+  destruct R as [R1 R2]. rewrite <- R1, <- R2.
+  generalize (if rc && cut s && reconn s then reconnect s else s). clear R1 R2 s. intros s.
+  cbn [step andb].
+  assert (P : ntaken (pump mof qof pq pay s) = ntaken s /\ takes (pump mof qof pq pay s) = takes s).
+  { unfold pump. destruct (waited s); [split; reflexivity|]. destruct (queue s); split; reflexivity. }
+  destruct P as [P1 P2].
+  destruct o as [r|]; [|split; assumption].
+  destruct (waited (pump mof qof pq pay s) && sent (pump mof qof pq pay s) && readable (pump mof qof pq pay s) r);
+    [|split; assumption].
+  rewrite <- P1, <- P2. unfold complete.
+  destruct (redirectable _ && is_redirect _); [|split; reflexivity].
+  destruct (rp_loc r); [|split; reflexivity].
+  repeat match goal with |- context [if ?c then _ else _] => destruct c end; split; reflexivity.
+Qed.
+
+Lemma invT_step s e : InvT s -> InvT (step mof qof pq pay s e).
+Proof.
+  intros [A B]. destruct (event_eq_take e) as [->|Hn].
+  - cbn [step]. unfold InvT, respond. cbn [ntaken takes responses].
+    destruct (nth_error (responses s) (ntaken s)) as [x|] eqn:E.
+    + assert (Hlt : (ntaken s < length (responses s))%nat) by (apply nth_error_Some; congruence).
+      split; [lia|]. rewrite somes_app, B. cbn [somes].
+      clear -E. revert E. generalize (ntaken s). induction (responses s) as [|y l IH]; intros [|n] E;
+        try discriminate; cbn [nth_error firstn List.app] in *; [now inversion E | f_equal; now apply IH].
+    + split; [exact A|]. rewrite somes_app, B. cbn [somes]. now rewrite app_nil_r.
+  - destruct (fixed_fields s e Hn) as [F1 F2]. destruct (responses_grow s e) as [more G].
+    unfold InvT. rewrite F1, F2, G. split; [rewrite app_length; lia|].
+    rewrite firstn_app. replace (ntaken s - length (responses s))%nat with 0%nat by lia.
+    now rewrite firstn_O, app_nil_r.
+Qed.
+
+Theorem respond_fifo rcn sec rd m evs :
+  let s := run mof qof pq pay (init_m rcn sec rd m) evs in
+  somes (takes s) = firstn (ntaken s) (responses s) /\ (ntaken s <= length (responses s))%nat.
+Proof.
+  cbn zeta.
+  assert (G : forall evs s, InvT s -> InvT (run mof qof pq pay s evs)).
+  { induction evs0 as [|e evs0 IH]; intros s H; [assumption|]. cbn [run fold_left].
+    fold (run mof qof pq pay (step mof qof pq pay s e) evs0). apply IH. now apply invT_step. }
+  destruct (G evs (init_m rcn sec rd m)) as [A B]; [|split; assumption].
+  unfold InvT, init_m. cbn. split; [lia | reflexivity].
+Qed.
+
+(* a respond() call returns None only when nothing waits *)
+Lemma respond_none s : nth_error (responses s) (ntaken s) = None -> (length (responses s) <= ntaken s)%nat.
+Proof. apply nth_error_None. Qed.
 
 End WithMethods.
